@@ -80,7 +80,7 @@ Demand(fault, fr, r, R, D, ret, touched) ==
             IF ret.kind = "ctxerr" THEN "ok"
             ELSE IF ret.kind = "ok" THEN "success-reported-for-a-call-cancelled-before-anything-was-read"
             ELSE "cancellation-not-reported-as-context-error"
-      [] fault = "cancel" ->
+      [] fault \in {"cancel", "ctxdeadline"} ->   \* (ctxdeadline: the caller's deadline, shorter than the read timeout, passes while the peer stalls)
             IF ret.kind = "ctxerr" THEN "ok" ELSE "cancellation-not-reported-as-context-error"
       [] fault \in {"notconnected", "nilreq", "connectfailed", "connectfailednil"} ->
             IF ret.kind = "ok" THEN "success-without-connection-or-request"
